@@ -48,6 +48,12 @@ CHECKS["C04"] = dict(
   technique="Lean 4 proof (semantic preservation of each optimizer + pipeline) + differential correspondence (go test -overlay, go/ast call-site extraction)",
   design="§10 C04")
 
+CHECKS["C10"] = dict(
+  text="Lean theorems (unbounded: all configs, all histories): after ANY history of syncOwner calls the kernel table holds, per address, exactly the OR of the bitmaps of the owners whose latest snapshot lists it, with no zero or orphaned entry (kernel_mirrors_owners, kernel_no_orphan, tracker_indexes_agree, batches_minimal); and after ANY history of cache operations (insert/replace/refresh, remove, family removal on reject, expiry on lookup, janitor+LRU, time, deferred refresh worker) the table is exactly the union over the currently cached entries listing the address (table_mirrors_cache, full strength after fix c8f5aff; Lean-checked revert witness). Tied to /repo by differential runs of the real tracker and the real DnsController with production wiring under virtual time; the batch stubs of bpf_stub.go are replaced (overlay, regenerated every run) by observers so every update/delete batch is compared.",
+  note="Trusted: Lean kernel + standard axioms; sequential atomic steps (the property quantifies over histories, not goroutine schedules: the non-atomic store+sync and the reload rollback are recorded as observations); eviction order is observed and checked for legality; MatchDomainBitmap replaced by generator-chosen bitmaps; batch syscall failures not explored.",
+  technique="Lean 4 proof (inductive invariants over operation histories) + differential correspondence (go test -overlay with regenerated observer stubs, synctest virtual time)",
+  design="§10 C10")
+
 def main():
     checks = []
     for pid in ALL:
